@@ -388,7 +388,12 @@ def _stored(job, ctx):
                     src.l = [secret]
                 else:
                     src.sub.s = secret
-                doc = src.dumps("json")
+                try:
+                    doc = src.dumps("json")
+                except Exception as exc:  # noqa
+                    ctx.violation("C08|crosskey|%s|setup-raises" % fmethod, "saving a configuration with a secret (%s) raised %r" % (where, exc),
+                                  {"jobparams_full": {k: v for k, v in job.items() if k not in ("single", "only")}, "only": ["crosskey", fmethod, order, where], "job": job["name"]})
+                    continue
 
                 def load_with(keyfile, cfg=None):
                     c = cfg or cc.Config(schema, key_filename=keyfile)
